@@ -95,9 +95,9 @@ def idleTx (cfg : NbCfg) (r : NbRun) (join : Bool) (tx : TxOut) (len : Nat) (n :
   | .dflt => pure (.uplinkSending n, { r with st := .sendingData join tx })
   | .txDoneNow ts => afterTxDone cfg r join tx ts
   | .idle =>
-    -- the frame was handed to the radio: never reuse its counter
-    pure (.errState "UnexpectedRadioResponse", { r with m := faultAfterTx r.m })
-  | .err => pure (.errRadio, { r with m := faultAfterTx r.m })
+    -- the frame was handed to the radio: never reuse its counter (expiry is reported even so)
+    pure (if faultExpired r.m then .mac .sessionExpired else .errState "UnexpectedRadioResponse", { r with m := faultAfterTx r.m })
+  | .err => pure (if faultExpired r.m then .mac .sessionExpired else .errRadio, { r with m := faultAfterTx r.m })
 
 def nbStep {σ} (g : Rng σ) (cfg : NbCfg) (r : NbRun) (ev : NbEvent) (rs : σ) : M (NbResp × NbRun × σ) :=
   match r.st with
